@@ -12,8 +12,9 @@
    * float leaves: `LitOK` (the token converts back) and `LitText` (the text is one token) — the library's
      shortest-digits printing and its parsing are not modelled; integer, decimal (`dec_leaf_ok`, Lemmas/DecText),
      string, boolean and none leaves are proved;
-   * names (`NameOK`): a letter, then identifier characters of which the first is not a digit, not a keyword — what the
-     lexer's IDENT rule produces, minus the corner `i5x` / `f1x` (identifiers by longest match, not covered).
+   * names (`NameOK`): a letter, then identifier characters, not a keyword, and after the literal prefixes `i`, `f`, `d`
+     no digit — what the lexer's IDENT rule produces, minus the corner `i5x` / `f1x` (identifiers only by longest match
+     against a numeric literal; not covered).
   Planning this proof exposed a genuine defect (`f .5` printed `(f.5)`, a float literal): repaired by fix commit 159fa22,
   and the model's `needsParens` now has the same clause, without which `lexShow_index` does not go through.
   Non-finite floats are outside the hypothesis and really fail (`nonfinite_float_is_not_reparsed`, known finding).
@@ -124,7 +125,7 @@ example (o : Oracle) (sf : F64 → Str) : Printable o sf sample := by
   exact ⟨int_leaf_ok o sf 5 (by decide), string_leaf_ok o sf _, by decide⟩
 
 example (sf : F64 → Str) : LexC.TextOK sf sample := by
-  have ha : LexC.NameOK ['a'] := ⟨'a', [], rfl, by decide, by decide, (by intro a r e; cases e), by decide⟩
+  have ha : LexC.NameOK ['a'] := ⟨'a', [], rfl, by decide, by decide, (by intro _ a r e; cases e), by decide⟩
   simp only [sample, LexC.TextOK, LexC.LitText, and_true, true_and]
   exact ha
 
